@@ -20,9 +20,45 @@ type Live struct {
 	Inconclusive bool
 	v0           int
 	gstSeen      int64
+	recovered    map[recKey]vnet.H
+}
+
+// recovered: proposals of a restarted node that came back to it inside a recovery message,
+// keyed by node/height/view.
+type recKey struct {
+	node int
+	inst int // the instance (restart count) that was told
+	h    uint32
+	v    byte
+}
+
+func (m *Live) catchUpRule(c *vnet.Cluster, e *vnet.Event) {
+	if e.Node < 0 {
+		return
+	}
+	n := c.Nodes[e.Node]
+	if n.Role != vnet.Honest || n.Restarts == 0 {
+		return
+	}
+	if m.recovered == nil {
+		m.recovered = map[recKey]vnet.H{}
+	}
+	switch {
+	case e.Kind == vnet.KAPICall && e.API == "OnReceive" && e.P != nil && e.P.T == dbft.RecoveryMessageType:
+		rm := e.P.Body.(*vnet.RecMsg)
+		if q := rm.PrepReq; q != nil && n.D != nil && n.D.Validators != nil && int(q.Idx) == n.D.MyIndex && q.Hgt == n.D.BlockIndex && !q.Forged {
+			m.recovered[recKey{n.ID, n.Restarts, q.Hgt, q.View}] = q.Hash()
+			m.inc("own-proposals-returned-to-restarted-node")
+		}
+	case e.Kind == vnet.KSend && e.P.T == dbft.PrepareRequestType:
+		if old, ok := m.recovered[recKey{n.ID, n.Restarts, e.P.Hgt, e.P.View}]; ok && old != e.P.Hash() {
+			m.fail(c, "restarted-node-ignores-recovered-proposal", "restarted n%d was handed its own proposal %s for (%d,%d) in a recovery message and nevertheless proposed another block %s for that view", n.ID, old, e.P.Hgt, e.P.View, e.P.Hash())
+		}
+	}
 }
 
 func (m *Live) Event(c *vnet.Cluster, e *vnet.Event) {
+	m.catchUpRule(c, e)
 	// track the highest view held by a live node up to the last fault instant
 	if e.Kind == vnet.KEpoch && e.Clock <= c.LastFault() && int(e.V) > m.v0 {
 		m.v0 = int(e.V)
@@ -104,8 +140,8 @@ func amnesiacPrimaryEquivocated(c *vnet.Cluster, h uint32) (int, bool) {
 	}
 	seen := map[key]vnet.H{}
 	for _, e := range c.Trace {
-		if e.Kind != vnet.KSend || e.P.T != dbft.PrepareRequestType || e.P.Hgt != h {
-			continue
+		if e.Kind != vnet.KSend || e.P.T != dbft.PrepareRequestType || e.P.Hgt != h || e.P.View != 0 {
+			continue // the recorded finding is the view-0 case: Start proposes before anything can be recovered
 		}
 		if c.Nodes[e.Node].Restarts == 0 {
 			continue
